@@ -58,7 +58,7 @@ def _state_changing(ctx, sn):
         if c.cls == R.builder:
             return ctx.E.eff.has_effect(c)
         return False
-    k, _ = ctx.E.eff.classify(c, sn.call)
+    k, _ = ctx.E.eff.classify(c, sn.call, sn.func)
     return k in (DESTROY, CREATE, USER, UNKNOWN)
 
 
@@ -246,15 +246,15 @@ def r17_4(ctx, rc):
     R = ctx.R
     app = R.builder + '.' + APPENDER
     n = 0
-    for F in ctx.prog.funcs.values():
-        if F.cls != R.builder or F.qualname == app:
-            continue
-        if not any(isinstance(g, Func) and g.qualname == app
-                   for c in ctx.prog.calls_in(F)
-                   for g in ctx.prog.resolve_call(c, F)):
-            continue
-        n += 1
+    from .c01 import recording_functions
+    for F in recording_functions(ctx):
         sg = ctx.helpers_graph(F, stop=perform_names(ctx))
+        if not any(x.kind == 'leaf' and isinstance(x.callee, Func) and
+                   ctx.E.eff.has_effect(x.callee, (
+                       'FS_READ', 'FS_PROBE', 'FS_DESTROY', 'FS_CREATE',
+                       'USER')) for x in sg.nodes):
+            continue          # a mere wrapper around the appender
+        n += 1
         w = Q.first_unguarded(
             sg, [sg.entry], lambda x: _is_close_store(ctx, x, False),
             lambda x: Q.is_call(x, app))
